@@ -19,7 +19,7 @@ from wdverif.monitors import Batch, rng_for
 ID = "C13"
 LEVEL = "fault_enumeration"
 RULE = (
-    "case = (API call sequence over 3 watch keys {(/p1,nonrec),(/p2,rec),(/p1,nonrec,filter)} x 2 handlers x 7 call kinds, "
+    "case = (API call sequence over 5 watch keys {(/p1,nonrec),(/p1,rec),(/p1,nonrec,filter),(/p1,nonrec,empty filter),(/p2,rec)} x 2 handlers x 7 call kinds, "
     "fault position) - all sequences up to length 3 (thorough 4) with a failure injected at every emitter-construction / "
     "on_thread_start opportunity, plus random sequences up to 15 calls.  Non-trivial iff >=2 distinct watches are touched "
     "or an injected failure fired; distinct by (sequence, fault position)."
@@ -35,14 +35,15 @@ ASSUMPTIONS = [
 MINIMUMS = {"quick": {"call_audits": 10000, "marker_audits": 5000, "faults_fired": 500}, "thorough": {"call_audits": 500000}}
 WALL_CAP = {"quick": 150, "thorough": 3000}
 
-KEYS = ["K1", "K2", "K3"]
+KEYS = ["K1", "K2", "K3", "K4", "K5"]
 HANDLERS = ["h1", "h2"]
 
 
 def key_args(k):
     from watchdog.events import FileModifiedEvent
 
-    return {"K1": ("/p1", False, None), "K2": ("/p2", True, None), "K3": ("/p1", False, [FileModifiedEvent])}[k]
+    return {"K1": ("/p1", False, None), "K2": ("/p1", True, None), "K3": ("/p1", False, [FileModifiedEvent]),
+            "K4": ("/p1", False, []), "K5": ("/p2", True, None)}[k]
 
 
 def mk_watch(k):
@@ -292,7 +293,7 @@ def plan(tier, seed, jobs):
         for a in range(nc):
             specs.append({"kind": "enum", "len": 2, "first": a})
         for a in range(nc):
-            specs.append({"kind": "enum", "len": 3, "first": a, "stride": 7, "offset": (seed + a) % 7})
+            specs.append({"kind": "enum", "len": 3, "first": a, "stride": 23, "offset": (seed + a) % 23})
         for j in range(jobs):
             specs.append({"kind": "random", "n": 60, "seed": seed, "j": j, "budget_s": 40})
     else:
